@@ -616,14 +616,18 @@ func (s *Store) rollback(ns walletdb.ReadWriteBucket, height int32) error {
 			if blockchain.IsCoinBaseTx(&rec.MsgTx) {
 				op := wire.OutPoint{Hash: rec.Hash}
 				for i, output := range rec.MsgTx.TxOut {
+					// Any unconfirmed transaction spending an
+					// output of the removed coinbase becomes
+					// invalid, whether or not that output is
+					// a wallet credit.
+					op.Index = uint32(i)
+					coinBaseCredits = append(coinBaseCredits, op)
+
 					k, v := existsCredit(ns, &rec.Hash,
 						uint32(i), &b.Block)
 					if v == nil {
 						continue
 					}
-					op.Index = uint32(i)
-
-					coinBaseCredits = append(coinBaseCredits, op)
 
 					unspentKey, credKey := existsUnspent(ns, &op)
 					if credKey != nil {
